@@ -2,6 +2,7 @@ import PeptVerif.Model.Proto
 import PeptVerif.Model.Annotation
 import PeptVerif.Model.Spans
 import PeptVerif.Model.Reorder
+import PeptVerif.Model.C07Strings
 /-! driver for C07: slice, the annotation return type of the digest dispatcher, digest end to end from sites -/
 open Proto Pept Pept.Reorder
 
@@ -25,6 +26,15 @@ def step (line : String) : String :=
   | ["pieces", a, sps] =>
     match Wire.parseAnnotation? a, parseSpans? sps with
     | some a, some sps => showPieces sps (digestPieces a sps)
+    | _, _ => "bad-op"
+  | ["strings", a, sps] =>
+    match Wire.parseAnnotation? a, parseSpans? sps with
+    | some a, some sps => "~".intercalate ((digestStrings (constPlus false) a sps).map Wire.esc)
+    | _, _ => "bad-op"
+  | ["strspans", a, sps] =>
+    match Wire.parseAnnotation? a, parseSpans? sps with
+    | some a, some sps =>
+      "~".intercalate ((digestStringSpans (constPlus false) a sps).map fun p => Spans.showSpan p.2 ++ "=" ++ Wire.esc p.1)
     | _, _ => "bad-op"
   | ["digest", a, sites, mc, lo, hi, semi, complete] =>
     match Wire.parseAnnotation? a, parseIntList? sites, mc.toNat?, parseOptInt? lo, parseOptInt? hi, parseBool? semi,
